@@ -481,9 +481,18 @@ class KernelPCovR(_BasePCA, LinearModel):
         K_VV = self._get_kernel(X)
 
         if self.center:
+            # K_VV lives in the same centered and scaled feature space as the other
+            # blocks: both of its means are taken over the training set, i.e. they
+            # are the row means of the uncentered K_VN
+            K_VN_mean = np.mean(K_VN, axis=1)
+            K_VV = (
+                K_VV
+                - K_VN_mean[:, np.newaxis]
+                - K_VN_mean[np.newaxis, :]
+                + self.centerer_.K_fit_all_
+            ) / self.centerer_.scale_
             K_NN = self.centerer_.transform(K_NN)
             K_VN = self.centerer_.transform(K_VN)
-            K_VV = self.centerer_.transform(K_VV)
 
         y = K_VN @ self.pky_
         Lkrr = np.linalg.norm(Y - y) ** 2 / np.linalg.norm(Y) ** 2
@@ -496,7 +505,7 @@ class KernelPCovR(_BasePCA, LinearModel):
             @ np.linalg.lstsq(t_n.T @ t_n, np.eye(t_n.shape[1]), rcond=self.tol)[0]
             @ t_v.T
         )
-        Lkpca = np.trace(K_VV - 2 * K_VN @ w + w.T @ K_VV @ w) / np.trace(K_VV)
+        Lkpca = np.trace(K_VV - 2 * K_VN @ w + w.T @ K_NN @ w) / np.trace(K_VV)
 
         return -sum([Lkpca, Lkrr])
 
